@@ -103,6 +103,7 @@ def strategy(tier):
         "ops": st.lists(OP, min_size=1, max_size=20),
         "default_delegate": st.sampled_from([False, False, True]),
         "listenable": st.sampled_from([True, True, True, False]),
+        "ctor_local": st.sampled_from([False, False, True]),
     })
 
 
@@ -125,6 +126,10 @@ def run(case, ctx):
     if case.get("default_delegate"):
         qs = [Q(), Q(d=ds[1])]           # the first object's delegate IS the default object of the trait, never assigned
         ctx.label("default-delegate")
+    elif case.get("ctor_local") and kind1 == "proto":
+        # the local value of the PrototypedFrom attribute arrives with the CONSTRUCTOR arguments (after the prototype)
+        qs = [Q(d=ds[0], **{name1: 77}), Q(d=ds[1])]
+        ctx.label("local-value-given-to-the-constructor")
     else:
         qs = [Q(d=ds[0]), Q(d=ds[1])]
     for i, d in enumerate(ds):
@@ -135,6 +140,8 @@ def run(case, ctx):
     # model state
     cur_d = {0: 0, 1: 1}            # which D each Q points to
     local_q = {0: None, 1: None}    # local override on Q (proto only): None = linked
+    if case.get("ctor_local") and kind1 == "proto" and not case.get("default_delegate"):
+        local_q[0] = 77
     if chain:
         kind2, style2 = chain
         Top, name2 = build_hop2(kind2, style2, name1)
